@@ -17,7 +17,8 @@ package main
 //                                      ok <status> <addresses> | err-<class>
 //   [i2] tasks                         drain the worker queue           import:W,remove:W | -
 //   [i2] inittasks                     start-up re-queueing (initTaskChan)
-//   [i2] impstep W                     one asyncImport batch            fin | more | err-<class>
+//   [i2] impstep W                     one asyncImport batch            fin | more | idle | err-<class>
+//   [i2] impstep! W                    the same, even for a wallet that is already done
 //   [i2] expired                       volatile height -> confirmed tx map
 //   [i2] mempool                       volatile pending id set
 //   twin W                             observations of W in instance 1 | instance 2
@@ -229,7 +230,9 @@ func (x *irExec) op(in *irInst, a []string) string {
 		e.wm.VerifInitTaskChan()
 		return "ok"
 	case a[0] == "impstep" && len(a) == 2:
-		return impStep(e, a[1])
+		return impStep(e, a[1], false)
+	case a[0] == "impstep!" && len(a) == 2:
+		return impStep(e, a[1], true)
 	case a[0] == "expired" && len(a) == 1:
 		return expiredTok(e)
 	case a[0] == "mempool" && len(a) == 1:
@@ -259,6 +262,8 @@ func (x *irExec) op(in *irInst, a []string) string {
 		return residue(e, a[1], false)
 	case a[0] == "pendmention" && len(a) == 2:
 		return residue(e, a[1], true)
+	case a[0] == "dangling" && len(a) == 1:
+		return dangling(e)
 	}
 	return ledOp(e, a)
 }
@@ -286,7 +291,7 @@ func (x *irExec) doImport(in *irInst, w, how string, n uint32) string {
 	switch how {
 	case "mn":
 		sum, err = e.wm.ImportWalletWithMnemonic(&keystore.WalletParams{Version: keystore.KeystoreVersion0, Mnemonic: mn,
-			PrivatePassphrase: []byte(privPass(w)), ExternalIndex: n})
+			PrivatePassphrase: []byte(privPass(w)), ExternalIndex: n, AddressGapLimit: e.cfg.Wallet.Settings.AddressGapLimit})
 	case "ks":
 		// the exported keystore of instance 1 (carries its own address counters); a wallet that no
 		// longer exists there cannot be exported
@@ -382,10 +387,17 @@ func importBatch(wm *masswallet.WalletManager, id string) (fin bool, err error) 
 	}
 }
 
-func impStep(e *WEnv, w string) string {
+func impStep(e *WEnv, w string, force bool) string {
 	id, ok := e.wallets[w]
 	if !ok {
 		return "bad-op"
+	}
+	// the worker only runs asyncImport for a queued task, and tasks exist only for wallets that
+	// are not ready: a finished import is never stepped again (`impstep!` forces the call)
+	if !force {
+		if st := walletStatusTok(e, w); st == "ready" || st == "removing" {
+			return "idle"
+		}
 	}
 	fin, err := importBatch(e.wm, id)
 	if err != nil {
@@ -524,22 +536,29 @@ func parkedInSuspend() bool {
 	return bytes.Contains(buf[:n], []byte("(*NtfnsHandler).suspend("))
 }
 
+func (in *irInst) finished(err error) string {
+	switch err {
+	case nil:
+		in.rm.res = "done-ok"
+	case masswallet.ErrTaskAbort:
+		in.rm.res = "done-abort"
+	default:
+		if verifDebug {
+			fmt.Fprintln(os.Stderr, "  [impl error] asyncRemove:", err)
+		}
+		in.rm.res = "done-err"
+		if strings.HasPrefix(err.Error(), "PANIC") {
+			in.rm.res = err.Error()
+		}
+	}
+	return in.rm.res
+}
+
 func (in *irInst) waitParked() string {
 	for i := 0; ; i++ {
 		select {
 		case err := <-in.rm.done:
-			switch err {
-			case nil:
-				in.rm.res = "done-ok"
-			case masswallet.ErrTaskAbort:
-				in.rm.res = "done-abort"
-			default:
-				if verifDebug {
-					fmt.Fprintln(os.Stderr, "  [impl error] asyncRemove:", err)
-				}
-				in.rm.res = "done-err"
-			}
-			return in.rm.res
+			return in.finished(err)
 		default:
 		}
 		if parkedInSuspend() {
@@ -590,7 +609,7 @@ func (in *irInst) remQuit() string {
 		return "bad-op"
 	}
 	in.e.wm.VerifCloseQuit()
-	return in.waitParked()
+	return in.finished(<-in.rm.done) // a worker waiting in suspend gives up once quit is closed
 }
 
 // residue scans EVERY bucket of the wallet database (recursively from the top-level buckets, bucket
@@ -691,4 +710,62 @@ func residue(e *WEnv, w string, pendOnly bool) string {
 		items = append(items, "k:1")
 	}
 	return joinSorted(items)
+}
+
+// dangling: debit records whose credit record is missing (`d:T:i`) and credits flagged spent whose
+// debit record is missing (`c:T:i`). Rollback fails on the former ("unspend non-existence credit").
+func dangling(e *WEnv) string {
+	bm := e.wm.VerifBucketMeta().VerifBuckets()
+	var items []string
+	err := mwdb.View(e.wdb, func(tx mwdb.ReadTransaction) error {
+		nsC := tx.FetchBucket(bm["credits"])
+		nsD := tx.FetchBucket(bm["debits"])
+		ds, err := nsD.GetByPrefix(nil)
+		if err != nil {
+			return err
+		}
+		for _, d := range ds {
+			if len(d.Key) < 76 || len(d.Value) < 84 {
+				items = append(items, "d:malformed")
+				continue
+			}
+			cv, _ := nsC.Get(d.Value[8:84])
+			if cv == nil {
+				var h [32]byte
+				copy(h[:], d.Key[:32])
+				items = append(items, fmt.Sprintf("d:%s:%d", e.txNameOfHash(h), uint32(d.Key[72])<<24|uint32(d.Key[73])<<16|uint32(d.Key[74])<<8|uint32(d.Key[75])))
+			}
+		}
+		cs, err := nsC.GetByPrefix(nil)
+		if err != nil {
+			return err
+		}
+		for _, c := range cs {
+			if len(c.Key) < 76 || len(c.Value) < 45 || c.Value[8]&1 == 0 {
+				continue
+			}
+			missing := len(c.Value) < 121
+			if !missing {
+				dv, _ := nsD.Get(c.Value[45:121])
+				missing = dv == nil
+			}
+			if missing {
+				var h [32]byte
+				copy(h[:], c.Key[:32])
+				items = append(items, fmt.Sprintf("c:%s:%d", e.txNameOfHash(h), uint32(c.Key[72])<<24|uint32(c.Key[73])<<16|uint32(c.Key[74])<<8|uint32(c.Key[75])))
+			}
+		}
+		return nil
+	})
+	if err != nil {
+		return "err"
+	}
+	return joinSorted(items)
+}
+
+func (e *WEnv) txNameOfHash(h [32]byte) string {
+	if ti, ok := e.txByHash[h]; ok {
+		return ti.name
+	}
+	return "?"
 }
